@@ -295,7 +295,10 @@ class SymExec:
         name = o.get("def")
         if "promoted" in o:
             # promoted constant: evaluate its body (a tiny MIR body of the same function)
-            pp = "%s::promoted[%d]" % (self.fn if self.body.kind != "Promoted" else self.body.d.get("parent"), o["promoted"])
+            owner = o.get("promoted_of") or (self.fn if self.body.kind != "Promoted" else self.body.d.get("parent"))
+            if o.get("promoted_of") is None and self.body.d.get("variant_of"):
+                owner = self.body.d["variant_of"]
+            pp = "%s::promoted[%d]" % (owner, o["promoted"])
             pse = self.eng.run(pp)
             if pse is not None and pse.ret is not None:
                 r = pse.ret
